@@ -78,18 +78,6 @@ def zArrange (hint : List Bytes) (mode : ZMode) : Nat → Nat → List (List ZM)
     let rest := zArrange hint mode r.2.2 (a + t) gs
     (r.1 ++ rest.1, r.2.1 * rest.2)
 
-/-- proposed `GetAll()` order of a sorted set for a command that sorts by score -/
-def zGuess (c : Ctx) (desc : Bool) (mode : ZMode) (ms : KMap Flt) : List ZM × Nat :=
-  let sorted := ms.mergeSort fun x y => if desc then y.2.le x.2 else x.2.le y.2
-  zArrange c.hint mode c.order 0 (groupByScore sorted)
-
-/-- proposed order for ZLEXCOUNT, where only the identity of the last member matters -/
-def zGuessLast (c : Ctx) (ms : KMap Flt) : List ZM :=
-  if ms.isEmpty then [] else
-  match ms[c.order % ms.length]? with
-  | none => ms
-  | some z => ms.eraseIdx (c.order % ms.length) ++ [z]
-
 /-- `for j := i; j > a && less(data[j], data[j-1]); j-- { swap }` for one element -/
 def insertRight {α : Type} (lt : α → α → Bool) (x : α) (p : List α) : List α :=
   (p.reverse.dropWhile fun y => lt x y).reverse ++ [x] ++ (p.reverse.takeWhile fun y => lt x y).reverse
@@ -99,6 +87,17 @@ def insertionSort {α : Type} (lt : α → α → Bool) (l : List α) : List α 
   l.foldl (fun p x => insertRight lt x p) []
 
 def scoreLt (desc : Bool) (x y : ZM) : Bool := if desc then y.2.lt x.2 else x.2.lt y.2
+
+/-- proposed `GetAll()` order of a sorted set for a command that sorts by score -/
+def zGuess (c : Ctx) (desc : Bool) (mode : ZMode) (ms : KMap Flt) : List ZM × Nat :=
+  zArrange c.hint mode c.order 0 (groupByScore (insertionSort (scoreLt desc) ms))
+
+/-- proposed order for ZLEXCOUNT, where only the identity of the last member matters -/
+def zGuessLast (c : Ctx) (ms : KMap Flt) : List ZM :=
+  if ms.isEmpty then [] else
+  match ms[c.order % ms.length]? with
+  | none => ms
+  | some z => ms.eraseIdx (c.order % ms.length) ++ [z]
 
 /-- is CompareLex a strict total order on these members (then the sort result does not depend on the
     iteration order) -/
@@ -496,10 +495,10 @@ def handleZRandMember (_c : Ctx) (cmd : List Bytes) : Prog Res :=
       else if a.1.natAbs ≥ ms.length then .ret (zArrAnyOrder a.2 ms)
       else .ret (.okPick (arrHdr a.1.natAbs) a.1.natAbs (decide (a.1 > 0)) (ms.map (zElem a.2)))
 
-/-- :769 handleZRANK (ZRANK and ZREVRANK; the latter's key function has no upper arity bound) -/
+/-- :769 handleZRANK (ZRANK and ZREVRANK; the handler itself applies zrankKeyFunc to both) -/
 def handleZRank (c : Ctx) (cmd : List Bytes) : Prog Res :=
   let rev := eqFold (cmd.headD []) (b "zrevrank")
-  withZSet cmd (cmd.length ≥ 3 && (rev || cmd.length ≤ 4))
+  withZSet cmd (cmd.length ≥ 3 && cmd.length ≤ 4)
     (if cmd.length == 4 then
        (if !isAscii (cmd.getD 3 []) then .unmod "non-ASCII token (EqualFold)" else PRes.ok (eqFold (cmd.getD 3 []) (b "withscores")))
      else .ok false)
@@ -885,7 +884,7 @@ def handleZMPop (c : Ctx) (cmd : List Bytes) : Prog Res :=
 def zTries (s : State) (db : Nat) : Nat :=
   let choose (n k : Nat) : Nat := (kSubsets k (List.range n)).length
   let bound (ms : KMap Flt) : Nat :=
-    let groups := groupByScore (ms.mergeSort fun x y => x.2.le y.2)
+    let groups := groupByScore (insertionSort (scoreLt false) ms)
     max ms.length (groups.foldl (fun acc g => acc * choose g.length (g.length / 2)) 1)
   min zAltCap ((s.db db).store.foldl (fun acc (_, e) => match e.val with
     | .zset _ ms => max acc (bound ms)
